@@ -12,7 +12,7 @@
     * in-place `dst--` scan             → `popSeg` on the reversed output prefix
 -/
 import NngModel.Base.Bytes
-import NngModel.Generated.Consts
+import NngModel.Generated.C19
 namespace Nng.Url
 open Nng
 
